@@ -371,9 +371,9 @@ def shiftnd(states, indices, shift, *, nmax=None, prune=True, tol=1e-8):
     # init new state matrix
     sm2 = xp.zeros(sm.shape[:-2] + (k2.shape[-2], 3), dtype=sm.dtype)
 
-    # update location of L and T states
-    sm2[..., idxL[keepL], 2] = sm[..., keepL, 2]
-    sm2[..., idxT[keepT], 0] = sm[..., keepT, 0]
+    # update location of L and T states (rows with the same wavenumber add up)
+    add_at(sm2, (..., idxL[keepL], 2), sm[..., keepL, 2])
+    add_at(sm2, (..., idxT[keepT], 0), sm[..., keepT, 0])
     sm2[..., 1] = sm2[..., ::-1, 0].conj()
 
     if prune:
